@@ -298,6 +298,29 @@ def _isolated_job(args):
     return out
 
 
+def _sequence_job(args):
+    fn_name, cases = args
+    r = None
+    for case in cases:
+        r = call_case(_MOD, fn_name, case)
+    return [v['sig'] for v in r.violations]
+
+
+def isolated_sequence(modname, seed, repo, fn_name, cases):
+    """The cases one after the other in ONE fresh worker process; ('ok', signatures of the LAST case) or ('died', None)."""
+    import multiprocessing as mp
+    from concurrent.futures import ProcessPoolExecutor
+    from concurrent.futures.process import BrokenProcessPool
+    ex = ProcessPoolExecutor(1, mp_context=mp.get_context('spawn'), initializer=_worker_init,
+                             initargs=(modname, seed, repo))
+    try:
+        return 'ok', ex.submit(_sequence_job, (fn_name, list(cases))).result()
+    except BrokenProcessPool:
+        return 'died', None
+    finally:
+        ex.shutdown(wait=False, cancel_futures=True)
+
+
 def isolated_calls_many(modname, seed, repo, jobs, times=2, parallel=6):
     """isolated_calls for a list of (fn_name, case), several fresh processes at a time (one process per job)."""
     from concurrent.futures import ThreadPoolExecutor
@@ -434,6 +457,7 @@ class Ctx(object):
             return []
         indexed = list(enumerate(cases))
         results = [None] * n
+        prefix_of = {}      # case index -> (its chunk, position): the cases one worker ran immediately before it
         if self.workers <= 1:
             for i, case in indexed:
                 results[i] = pack(call_case(self.mod, fn_name, case))
@@ -446,6 +470,9 @@ class Ctx(object):
                 chunk = max(1, min(256, n // (self.workers * 8) or 1))
             chunks = [indexed[k:k + chunk] for k in range(0, n, chunk)]
             self._run_chunks(fn_name, chunks, results)
+            for c_ in chunks:
+                for pos_, (i_, _) in enumerate(c_):
+                    prefix_of[i_] = (c_, pos_)
         tag = phase or fn_name
         for i, p in enumerate(results):
             self.evaluations += 1
@@ -465,7 +492,11 @@ class Ctx(object):
                 self.counters[tag + '.' + k if phase else k] = \
                     self.counters.get(tag + '.' + k if phase else k, 0) + v
             for v in p['violations']:
+                first = v['sig'] not in self.viol
                 self._violation(fn_name, cases[i], v)
+                if first and i in prefix_of:
+                    c_, pos_ = prefix_of[i]
+                    self.viol[v['sig']]['prefix'] = [cs for _, cs in c_[:pos_]]
         # samples: first, middle, last
         for j in sorted(set([0, n // 2, n - 1])):
             if len(self.samples) < 12:
@@ -477,9 +508,21 @@ class Ctx(object):
         e = self.viol.get(sig)
         if e is None:
             self.viol[sig] = {'fn': fn_name, 'case': case, 'sub': v['sub'], 'sig': sig,
-                              'detail': v['detail'], 'count': 1}
+                              'detail': v['detail'], 'count': 1, 'alts': []}
         else:
             e['count'] += 1
+            # further exemplars of the same signature (the smallest and the latest seen): when the first one turns out to
+            # depend on what ran before it in its worker, one of these may still fail on its own
+            cand = {'fn': fn_name, 'case': case, 'detail': v['detail'], 'size': len(json.dumps(jsonable(case)))}
+            alts = e['alts']
+            if not alts:
+                alts.append(cand)
+            elif cand['size'] < alts[0]['size']:
+                alts[0] = cand
+            elif len(alts) < 2:
+                alts.append(cand)
+            else:
+                alts[1] = cand
 
     # -- E2 ------------------------------------------------------------------------------
     def bfs(self, fn_name, roots, ops_of, depth, phase=None, max_states=None):
